@@ -64,7 +64,10 @@ Init == /\ \E t \in InitTables : rows = [i \in DOMAIN t |-> [a |-> t[i][1], b |-
         /\ ncols = 2 /\ idx = <<>> /\ sel = [i \in 1..Len(rows) |-> i] /\ n = 0 /\ fresh = TRUE
         /\ hist = <<Step("new", <<>>, RowsOut(rows, 2), 2, <<>>)>>
 
+(* column c (brought by a ragged insert) can be indexed too unless it holds None, which Python cannot order *)
+COrderable == ncols = 3 /\ \A i \in DOMAIN rows : rows[i].c # N
 IndexChoices == {<<"a">>, <<"b">>, <<"a","b">>, <<"b","a">>}
+                \cup (IF COrderable THEN {<<"c">>, <<"c","b">>, <<"a","c">>, <<"c","a","b">>} ELSE {})
 DoIndex == /\ "index" \in Ops /\ sel = Whole
            /\ \E ks \in IndexChoices :
                 LET s == Sorted(rows, ks) IN
@@ -110,6 +113,7 @@ DoInsert == /\ "insert" \in Ops /\ sel = Whole
             /\ \/ \E nr \in NewRows : /\ rows' = rows \o nr /\ UNCHANGED ncols
                     /\ hist' = Append(hist, Step("insert", [i \in DOMAIN nr |-> <<nr[i].a, nr[i].b>>], RowsOut(rows \o nr, ncols), ncols, idx))
                \/ \E nr \in RaggedRows : /\ rows' = rows \o nr /\ ncols' = 3
+                    /\ ((\A k \in DOMAIN idx : idx[k] # "c") \/ (\A i \in DOMAIN nr : nr[i].c # N))   \* None cannot enter an indexed column
                     /\ hist' = Append(hist, Step("insertc", [i \in DOMAIN nr |-> <<nr[i].a, nr[i].b, nr[i].c>>], RowsOut(rows \o nr, 3), 3, idx))
             /\ sel' = [i \in 1..Len(rows') |-> i] /\ UNCHANGED idx
             /\ fresh' = (idx = <<>> \/ (fresh /\ \A i \in 1..(Len(rows') - 1) : ~KeyLess(rows'[i+1], 0, rows'[i], 0, idx) \/ rows'[i] = rows'[i+1]))
